@@ -4,7 +4,7 @@ Require Extraction.
 Require ExtrOcamlBasic.
 From PB Require Telegram CodecOracle.
 Extraction Language OCaml.
-Extraction "model.ml"
+Extraction "model_codec.ml"
   Telegram.decode Telegram.encode_data_in Telegram.encode Telegram.fc_from_byte Telegram.fc_to_byte
   Telegram.tx_expects_reply Telegram.telegram_len Telegram.all_fcodes
   Tables.req_from_byte Tables.resp_state_from_byte Tables.resp_status_from_byte
